@@ -382,8 +382,27 @@ type vsCall struct {
 	disturbed  bool // the session was not healthy when the call returned
 	afterDone  bool // started when the session's connection had already terminated
 	followUpOf string
+	cx         *vsCancelRec
 	panicked   string
 	toolName   string
+}
+
+// vsCancelRec: what was observed around the cancellation of a call's context (recorded for the typed Lean
+// monitor SessMon.callMon, clause P_cancel; nothing is judged here).
+type vsCancelRec struct {
+	timing   string
+	healthy  bool
+	stalled  bool
+	returned bool
+	delay    int64
+	hParked  bool
+	hSaw     bool
+	touched  []vsTouched
+}
+
+type vsTouched struct {
+	when string
+	toks []string // handlers running with a live context before the cancellation whose context is cancelled now
 }
 
 type vsWaiter struct {
@@ -424,6 +443,7 @@ type vsCase struct {
 	runCancel                    context.CancelFunc
 	runDone                      chan struct{}
 	runReturned                  bool // guarded by mu
+	probeRecs                    []string
 	recHang, recJudged           bool // recJudged: judge() ran (the counters are final)
 	recSsess, recCsess, recSubs int
 	nsubh int // SubscribeHandler invocations (guarded by mu)
@@ -1514,6 +1534,7 @@ func (c *vsCase) actCancel() bool {
 		cl := dn[r.Intn(len(dn))]
 		before := c.ctxSnapshot()
 		cl.cancelled, cl.timing = true, "after"
+		cl.cx = &vsCancelRec{timing: "after", healthy: true, returned: true}
 		cl.cancel()
 		synctest.Wait()
 		c.checkOthersUntouched(cl, before, "after it had returned")
@@ -1532,6 +1553,8 @@ func (c *vsCase) actCancel() bool {
 	h := c.hrecFor(cl.tok)
 	hParked := h != nil && h.parked && !h.released
 	cl.cancelled, cl.timing, cl.inFlightAtCancel = true, timing, true
+	cx := &vsCancelRec{timing: timing, healthy: healthy, hParked: hParked}
+	cl.cx = cx
 	cl.cancelT = c.now()
 	if timing == "race" {
 		var target *vsHRec
@@ -1556,7 +1579,7 @@ func (c *vsCase) actCancel() bool {
 	c.tag("cancel=" + timing)
 	c.desc = append(c.desc, "x:"+timing)
 	c.mu.Lock()
-	done, err, endT := cl.done, cl.err, cl.endT
+	done, endT := cl.done, cl.endT
 	c.mu.Unlock()
 	if !done {
 		c.mu.Lock()
@@ -1566,39 +1589,30 @@ func (c *vsCase) actCancel() bool {
 			// the call may still be inside the transport's Write of its own request (the peer has stopped
 			// draining the pipe and ioConn.Write cannot be interrupted): C04 speaks of requests already sent
 			c.tag("cancel-with-stalled-writer")
+			cx.stalled = true
 			return true
 		}
 		// a small bound of virtual time, then give up
 		time.Sleep(100 * time.Millisecond)
 		synctest.Wait()
 		c.mu.Lock()
-		done, err, endT = cl.done, cl.err, cl.endT
+		done, endT = cl.done, cl.endT
 		c.mu.Unlock()
 		if !done {
-			c.viol("C04: %s %s did not return after its context was cancelled (%s) %s", vsSessName[cl.side], cl.kind, timing, c.stateStr())
-			return true
+			c.tr("cancelled call %s did not return: %s", cl.tok, c.stateStr())
+			return true // recorded: cx.returned stays false
 		}
 	}
-	if endT-cl.cancelT > 0 {
-		c.viol("C04: %s %s returned only %dms after its context was cancelled", vsSessName[cl.side], cl.kind, endT-cl.cancelT)
-	}
-	if timing == "during" && healthy {
-		if !errors.Is(err, context.Canceled) {
-			c.viol("C04: cancelled %s %s returned %s instead of the context's error", vsSessName[cl.side], cl.kind, vsErrClass(err))
+	cx.returned = true
+	cx.delay = endT - cl.cancelT
+	if hParked {
+		c.mu.Lock()
+		ce := h.ctxErr
+		if !h.finished && h.ctx.Err() != nil {
+			ce = vsErrClass(h.ctx.Err())
 		}
-		if hParked {
-			c.mu.Lock()
-			ce := h.ctxErr
-			if !h.finished && h.ctx.Err() != nil {
-				ce = vsErrClass(h.ctx.Err())
-			}
-			c.mu.Unlock()
-			if ce == "" {
-				c.viol("C04: the peer's handler of the cancelled %s %s did not see its context cancelled", vsSessName[cl.side], cl.kind)
-			}
-		}
-	} else if err != nil && !errors.Is(err, context.Canceled) && healthy && timing == "during" {
-		c.viol("C04: cancelled call returned %s", vsErrClass(err))
+		c.mu.Unlock()
+		cx.hSaw = ce != ""
 	}
 	if healthy {
 		c.checkOthersUntouched(cl, before, "while the connection was healthy")
@@ -1656,23 +1670,24 @@ func (c *vsCase) ctxSnapshot() map[string]bool {
 	return m
 }
 
+// checkOthersUntouched RECORDS (for SessMon.callMon, P_touched) the handlers that were running with a live
+// context before the cancellation and whose context is cancelled now - all of them, the cancelled call's
+// own handlers included (the monitor tells them apart by the token).
 func (c *vsCase) checkOthersUntouched(cl *vsCall, before map[string]bool, when string) {
 	c.mu.Lock()
 	defer c.mu.Unlock()
+	t := vsTouched{when: when}
 	for _, h := range c.hlist {
 		was, running := before[h.tok]
 		if !running || was {
 			continue
 		}
-		if h.tok == cl.tok || strings.HasPrefix(h.tok, cl.tok+"/") {
-			continue
+		if h.ctxErr != "" || (!h.finished && h.ctx.Err() != nil) {
+			t.toks = append(t.toks, h.tok)
 		}
-		cancelled := h.ctxErr != "" || (!h.finished && h.ctx.Err() != nil)
-		if cancelled {
-			c.viols = append(c.viols, fmt.Sprintf("C04: cancelling %s %s %s also cancelled the context of another handler (%s %s)",
-				vsSessName[cl.side], cl.kind, when, vsSideName[h.side], h.kind))
-			return
-		}
+	}
+	if cl.cx != nil {
+		cl.cx.touched = append(cl.cx.touched, t)
 	}
 }
 
@@ -2170,24 +2185,8 @@ func (c *vsCase) judge() {
 	c.judgeCalls()
 	c.judgeWire()
 	c.judgeOrder()
-	// C05: a graceful Close lets running handlers finish. Without an injected fault a handler's context is
-	// cancelled by its caller (cause context.Canceled) or, once the PEER has closed the transport, by the
-	// reader's EOF / a failing write; never while both transports are still open.
-	c.mu.Lock()
-	fe := c.faultEver
-	c.mu.Unlock()
-	if !fe {
-		for _, h := range c.hlist {
-			if h.ctxErr != "" && h.cause != "context-canceled" && h.bothOpen {
-				c.viol("C05: the context of a running %s handler (%s) was cancelled with cause %s while both transports were open and no fault was injected: a graceful Close must let running handlers finish", vsSideName[h.side], h.kind, h.cause)
-			}
-		}
-	}
-	for _, h := range c.hlist {
-		if h.runs > 1 {
-			c.viol("C02: the handler of one message (%s %s) ran %d times", vsSideName[h.side], h.kind, h.runs)
-		}
-	}
+	// C05 "a graceful Close lets running handlers finish" and C02 "the handler of one message runs once":
+	// recorded per handler (extraRec) and decided by the typed Lean monitor SessMon.extraMon
 }
 
 func (c *vsCase) postMortem() {
@@ -2224,89 +2223,126 @@ func (c *vsCase) postMortem() {
 	synctest.Wait()
 	c.mu.Lock()
 	defer c.mu.Unlock()
+	// recorded (extraRec: p:…) and decided by the typed Lean monitor SessMon.extraMon (P_probe)
 	for _, p := range ps {
-		if !p.done {
-			c.viols = append(c.viols, fmt.Sprintf("C01: %s started after Wait had returned is blocked instead of failing at once", p.name))
-		} else if !errors.Is(p.err, ErrConnectionClosed) {
-			c.viols = append(c.viols, fmt.Sprintf("C01: %s started after Wait had returned ended with %s, not with ErrConnectionClosed", p.name, vsErrClass(p.err)))
+		cls := ""
+		if p.done {
+			cls = vsErrClass(p.err)
 		}
+		c.probeRecs = append(c.probeRecs, fmt.Sprintf("p:%s:%s:%s:%s", hxs(p.name), vsB(p.done), vsB(p.done && errors.Is(p.err, ErrConnectionClosed)), hxs(cls)))
 	}
 }
 
-func (c *vsCase) judgeCalls() {
+func vsB(x bool) string {
+	if x {
+		return "1"
+	}
+	return "0"
+}
+
+// extraRec prints the handler runs and the probes started after termination (SessClose/Calls.lean: ExtraObs).
+func (c *vsCase) extraRec() string {
 	c.mu.Lock()
 	defer c.mu.Unlock()
-	add := func(f string, a ...any) { c.viols = append(c.viols, fmt.Sprintf(f, a...)) }
+	if !c.recJudged {
+		return "-"
+	}
+	out := []string{"fe=" + vsB(c.faultEver)}
+	for _, h := range c.hlist {
+		out = append(out, fmt.Sprintf("h:%s:%s:%d:%s:%s:%s", hxs(vsSideName[h.side]), hxs(h.kind), h.runs, vsB(h.ctxErr != ""), hxs(h.cause), vsB(h.bothOpen)))
+	}
+	out = append(out, c.probeRecs...)
+	return strings.Join(out, " ")
+}
+
+// judgeCalls: the per-call clauses of C01 / C04 are decided by the typed Lean monitor SessMon.callMon
+// (SessClose/Calls.lean) on the records printed by callsRec.
+func (c *vsCase) judgeCalls() {}
+
+// callsRec prints one record per finished call (SessClose/Calls.lean: CallObs / parseCall).
+func (c *vsCase) callsRec() string {
+	c.mu.Lock()
+	defer c.mu.Unlock()
+	if !c.recJudged || c.cs == nil && len(c.calls) == 0 {
+		return "-"
+	}
+	b := func(x bool) string {
+		if x {
+			return "1"
+		}
+		return "0"
+	}
 	newProto := c.cfg.version >= protocolVersion20260728 && c.cs != nil && c.cs.usesNewProtocol()
+	ssNew := c.ss != nil && c.ssNew()
+	var tools []string
+	for n := range c.toolsEver {
+		tools = append(tools, n)
+	}
+	sort.Strings(tools)
+	var out []string
 	for _, cl := range c.calls {
 		if !cl.done || cl.panicked != "" {
 			continue
 		}
-		name := vsSessName[cl.side] + " " + cl.kind
-		// payload: what the peer's handler produced for THIS call
+		want := "-"
 		if cl.err == nil {
 			switch cl.kind {
 			case "tool", "sample", "elicit":
-				want, ok := c.produced[cl.tok]
-				if !ok {
-					add("C01: %s succeeded although no handler produced a result for it (got %q)", name, cl.payload)
-				} else if want != cl.payload {
-					add("C01: %s returned %q but the handler of that call produced %q", name, cl.payload, want)
+				if w, ok := c.produced[cl.tok]; ok {
+					want = "e:" + hxs(w)
+				} else {
+					want = "m"
 				}
 			case "list":
-				for _, n := range strings.Split(cl.payload, ",") {
-					if n != "" && !c.toolsEver[n] {
-						add("C01: ListTools returned a tool %q that never existed", n)
-					}
-				}
+				want = "n:" + hxs(strings.Join(tools, ","))
 			case "roots":
-				if cl.payload != "roots:file:///root1" {
-					add("C01: ListRoots returned %q", cl.payload)
-				}
+				want = "e:" + hxs("roots:file:///root1")
 			}
 		}
-		if cl.afterDone && !cl.isNotify {
-			// started after the session had terminated
-			skip := cl.kind == "unsub" || (cl.err != nil && strings.Contains(cl.err.Error(), "client does not support")) || (newProto && (cl.kind == "list" || cl.kind == "sub")) ||
-				(c.ssNew() && (cl.kind == "roots" || cl.kind == "sample" || cl.kind == "elicit"))
-			if !skip {
-				if !errors.Is(cl.err, ErrConnectionClosed) && !(cl.cancelled && errors.Is(cl.err, context.Canceled)) {
-					add("C01: %s started after the connection had terminated ended with %s, not with ErrConnectionClosed", name, vsErrClass(cl.err))
-				} else if cl.endT != cl.startT {
-					add("C01: %s started after the connection had terminated took %dms to fail", name, cl.endT-cl.startT)
-				}
-			}
-			continue
-		}
-		if cl.err == nil || cl.cancelled || cl.disturbed {
-			continue
-		}
-		// an error on a healthy pair of sessions needs a reason
+		// methods that are refused before they reach the connection (version / capability checks)
+		lateExempt := cl.kind == "unsub" || (cl.err != nil && strings.Contains(cl.err.Error(), "client does not support")) || (newProto && (cl.kind == "list" || cl.kind == "sub")) ||
+			(ssNew && (cl.kind == "roots" || cl.kind == "sample" || cl.kind == "elicit"))
+		// the error is the one the scenario asked for
+		reason := false
 		var we *jsonrpc.Error
-		exp := false
 		switch {
+		case cl.err == nil:
 		case cl.kind == "tool" && errors.As(cl.err, &we) && c.beh[cl.tok].fail != 0 && we.Code == c.beh[cl.tok].fail:
-			exp = true
+			reason = true
 		case cl.kind == "tool" && errors.As(cl.err, &we) && we.Code == jsonrpc.CodeInvalidParams && strings.HasPrefix(cl.toolName, "dyn") && strings.Contains(we.Message, "unknown tool"):
-			exp = true
-		case cl.side == vsServer && c.ssNew() && (cl.kind == "roots" || cl.kind == "sample" || cl.kind == "elicit") && strings.Contains(cl.err.Error(), "cannot be sent while serving"):
-			exp = true // server-initiated requests are forbidden under 2026-07-28
+			reason = true
+		case cl.side == vsServer && ssNew && (cl.kind == "roots" || cl.kind == "sample" || cl.kind == "elicit") && strings.Contains(cl.err.Error(), "cannot be sent while serving"):
+			reason = true // server-initiated requests are forbidden under 2026-07-28
 		case cl.side == vsServer && strings.HasPrefix(cl.gor, "h:"):
 			// a callback made by a tool handler whose own context was cancelled
 			if h := c.hrec[strings.TrimPrefix(cl.gor, "h:")]; h != nil && (h.ctxErr != "" || (h.ctx != nil && h.ctx.Err() != nil)) {
-				exp = true
+				reason = true
 			}
 		}
-		if !exp {
-			p := "C01"
-			what := "on a healthy pair of sessions"
-			if cl.followUpOf != "" {
-				p = "C04"
-				what = "although it was issued after a cancellation on a healthy session (a later call must still work)"
-			}
-			add("%s: %s failed with %s %s", p, name, vsErrClass(cl.err), what)
+		ec := ""
+		if cl.err != nil {
+			ec = vsErrClass(cl.err)
 		}
+		cx := "-"
+		if x := cl.cx; x != nil {
+			var ts []string
+			for _, t := range x.touched {
+				var hs []string
+				for _, k := range t.toks {
+					hs = append(hs, hxs(k))
+				}
+				ts = append(ts, hxs(t.when)+"="+strings.Join(hs, "+"))
+			}
+			cx = fmt.Sprintf("%s:%s%s%s%s%s:%d:%s:%s", x.timing, b(x.healthy), b(x.stalled), b(x.returned), b(x.hParked), b(x.hSaw), x.delay, hxs(cl.tok), strings.Join(ts, "/"))
+		}
+		bits := b(cl.followUpOf != "") + b(cl.err == nil) + b(errors.Is(cl.err, ErrConnectionClosed)) + b(errors.Is(cl.err, context.Canceled)) +
+			b(cl.afterDone) + b(cl.isNotify) + b(lateExempt) + b(cl.cancelled) + b(cl.disturbed) + b(reason)
+		out = append(out, strings.Join([]string{hxs(vsSessName[cl.side] + " " + cl.kind), bits, hxs(ec), hxs(cl.payload), want, strconv.FormatInt(cl.endT-cl.startT, 10), cx}, ","))
 	}
+	if len(out) == 0 {
+		return "-"
+	}
+	return strings.Join(out, " ")
 }
 
 func (c *vsCase) ssNew() bool {
@@ -2321,38 +2357,48 @@ func (c *vsCase) judgeWire() {
 	// monitor SessMon.wireMon (SessClose/Wire.lean; wireMon_complete, sound_w…)
 }
 
-// judgeOrder: C03 for the messages one goroutine issued in sequence.
-func (c *vsCase) judgeOrder() {
+// judgeOrder: C03 for the messages one goroutine issued in sequence is decided by the typed Lean monitor
+// SessMon.orderMon (SessClose/Calls.lean) on the records printed by orderRec.
+func (c *vsCase) judgeOrder() {}
+
+// orderRec prints, per sender goroutine, the messages it issued in sequence with the handler run of each
+// (SessClose/Calls.lean: GorObs / parseGor).
+func (c *vsCase) orderRec() string {
 	c.mu.Lock()
 	defer c.mu.Unlock()
+	if !c.recJudged {
+		return "-"
+	}
 	var gors []string
 	for g := range c.issued {
 		gors = append(gors, g)
 	}
 	sort.Strings(gors)
+	var out []string
 	for _, g := range gors {
-		l := c.issued[g]
-		for i := 0; i < len(l); i++ {
-			if !l[i].isNotif {
+		items := []string{hxs(g)}
+		for _, it := range c.issued[g] {
+			n := "c"
+			if it.isNotif {
+				n = "n"
+			}
+			h := c.hrec[it.tok]
+			if h == nil || h.startSeq == 0 {
+				items = append(items, n+"::-")
 				continue
 			}
-			hi := c.hrec[l[i].tok]
-			if hi == nil || hi.startSeq == 0 {
-				continue
+			fin := "0"
+			if h.finished {
+				fin = "1"
 			}
-			for j := i + 1; j < len(l); j++ {
-				hj := c.hrec[l[j].tok]
-				if hj == nil || hj.startSeq == 0 || hj.side != hi.side {
-					continue
-				}
-				if hj.startSeq < hi.startSeq {
-					c.viols = append(c.viols, fmt.Sprintf("C03: the %s handled a later message (%s) of one sender goroutine before an earlier notification of that goroutine", vsSideName[hi.side], hj.kind))
-				} else if !hi.finished || hi.endSeq > hj.startSeq {
-					c.viols = append(c.viols, fmt.Sprintf("C03: the %s started the handler of a later message (%s, t=%dms) before the handler of an earlier notification from the same sender goroutine had finished (started t=%dms)", vsSideName[hi.side], hj.kind, hj.startT, hi.startT))
-				}
-			}
+			items = append(items, fmt.Sprintf("%s:%s:%d.%d.%s.%d", n, hxs(h.kind), h.side, h.startSeq, fin, h.endSeq))
 		}
+		out = append(out, strings.Join(items, ";"))
 	}
+	if len(out) == 0 {
+		return "-"
+	}
+	return strings.Join(out, " ")
 }
 
 // --- output ------------------------------------------------------------------------------------
@@ -2520,7 +2566,7 @@ func vsRunCase(t *testing.T, out *verifOut, id string, seed int64, idx int) {
 	} else {
 		c.tag("violation")
 	}
-	out.line(id, c.op(), obs+" ## "+c.rec(), c.tagList()...)
+	out.line(id, c.op(), obs+" ## "+c.rec()+" ## "+c.callsRec()+" ## "+c.orderRec()+" ## "+c.extraRec(), c.tagList()...)
 	out.flush()
 	if vsDebug {
 		fmt.Fprintf(os.Stderr, "== %s\n%s\n=> %s\n", c.op(), strings.Join(c.trace, "\n"), obs)
